@@ -376,3 +376,47 @@ pub fn c18_shell_new_helper() {
 pub fn c18_shell_order_one_of_each() {
     shell_scenario(Shape { nopts: 1, po: Po::Borrowed, nargs: 1, olen: [2, 0], polen: 2, clen: 3, alen: [2, 0] });
 }
+
+/// N symbolic bytes over 0x01..=0xff: includes every byte sequence that is not valid UTF-8.
+fn symw<const N: usize>() -> [u8; N] {
+    let b: [u8; N] = kani::any();
+    let mut i = 0;
+    while i < N {
+        kani::assume(at(&b, i) >= 1);
+        i = nx(i);
+    }
+    b
+}
+
+/// Paths and the program option are OS strings, not text: a shell program and a program option made of
+/// arbitrary non-NUL bytes (in particular bytes that are not valid UTF-8) reach the process layer byte
+/// for byte. One shape: 1 ASCII option, owned 2-byte program option, 2-byte command, no extra arguments.
+/// (Added after seed r4-lossy-program-path, which routes both through `to_string_lossy`/`display`.)
+#[kani::proof]
+#[kani::unwind(5)]
+#[kani::stub(std::mem::MaybeUninit::write, maybe_uninit_write)]
+pub fn c18_shell_nonutf8_prog_and_progopt() {
+    let sb = symw::<2>();
+    let qb = symw::<2>();
+    let ob = sym::<2>();
+    let cb = sym::<2>();
+    let mut options_v = Vec::with_capacity(1);
+    options_v.push(mk(&ob, 2));
+    let shell = Shell {
+        prog: PathBuf::from(OsString::from_vec(mkv(&sb, 2))),
+        options: options_v,
+        program_option: Some(Cow::Owned(OsString::from_vec(mkv(&qb, 2)))),
+    };
+    let options = any_options();
+    let cmd = build_cmd(shell, false, mk(&cb, 2), Vec::new(), options);
+    let sp = cmd.to_spawnable();
+    let c = sp.command();
+    kani::cover!(sb[1] == 0xff && qb[0] == 0xc3 && qb[1] == b'(', "shell program and program option that are not valid UTF-8");
+    assert!(is(&c.verif_program, &sb, 2), "C18: shell program altered");
+    assert!(c.verif_args.len() == 3, "C18: shell argv length wrong");
+    assert!(is(arg(c, 0), &ob, 2), "C18: shell option altered or misplaced");
+    assert!(is(arg(c, 1), &qb, 2), "C18: program option altered or misplaced");
+    assert!(is(arg(c, 2), &cb, 2), "C18: command string altered or misplaced");
+    std::mem::forget(sp);
+    std::mem::forget(cmd);
+}
